@@ -56,9 +56,11 @@ func (m *methodInfo) Shape() string {
 
 const tsvc = "grpc.testing.TestService"
 
+// pl: a nil payload (MsgSpec.Zero) leaves the field unset, so that the
+// message built around it has no field set at all and marshals to zero bytes.
 func pl(b []byte) *grpc_testing.Payload {
 	if b == nil {
-		b = []byte{}
+		return nil
 	}
 	return &grpc_testing.Payload{Body: b}
 }
@@ -197,6 +199,9 @@ func textOf(p []byte) string {
 
 // payloadFor builds the self-describing payload of message idx of request id.
 func payloadFor(reqID, idx int, dir byte, m MsgSpec) []byte {
+	if m.Zero {
+		return nil
+	}
 	b := make([]byte, m.Size)
 	s := core.Mix(uint64(reqID), uint64(idx), uint64(dir), m.Seed) | 1
 	for i := range b {
@@ -214,6 +219,9 @@ func payloadFor(reqID, idx int, dir byte, m MsgSpec) []byte {
 
 // MsgSpec describes one message of a request or response sequence.
 type MsgSpec struct {
+	// Zero: the message with no field set at all (zero bytes of protobuf,
+	// "{}" in JSON), not merely an empty payload.
+	Zero bool   `json:"zero,omitempty"`
 	Size int    `json:"size"`
 	Seed uint64 `json:"seed"`
 	// Plain: on a stream that negotiated compression this message still goes
@@ -716,4 +724,25 @@ func (w *World) bodyWriter(rs *reqState, l *HLog, spec *HandlerSpec, stream grpc
 		l.setSent(l.Sent)
 	}
 	return true
+}
+
+// addZeroMessages turns some of the empty-payload messages of a request into
+// messages with no field set at all (where the method's messages allow it).
+func addZeroMessages(r *core.Rand, sp *ReqSpec) {
+	mi := methods[sp.Method]
+	if mi == nil || sp.Codec == "body" || mi.httpBodyResp {
+		return
+	}
+	if mi.mkBody == nil {
+		for i := range sp.Msgs {
+			if sp.Msgs[i].Size == 0 && !sp.Msgs[i].Unknown && r.Chance(1, 2) {
+				sp.Msgs[i].Zero = true
+			}
+		}
+	}
+	for i := range sp.Handler.Resps {
+		if sp.Handler.Resps[i].Size == 0 && r.Chance(1, 2) {
+			sp.Handler.Resps[i].Zero = true
+		}
+	}
 }
